@@ -85,36 +85,6 @@ theorem deep_is_error (maxRec : Nat) (inp : Input) :
   ⟨(parse_fuel_sufficient maxRec inp false).1,
    fun d hc hr hwf hd => ((depth_error_iff maxRec inp d hc hr hwf).1).mpr hd⟩
 
-theorem pdSels_append (a b : List Selection) : pdSels (a ++ b) = max (pdSels a) (pdSels b) := by
-  induction a with
-  | nil => simp [pdSels_nil]
-  | cons s a ih => simp only [List.cons_append, pdSels_cons, ih]; omega
-
-theorem pdValues_append (a b : List Value) : pdValues (a ++ b) = max (pdValues a) (pdValues b) := by
-  induction a with
-  | nil => simp [pdValues]
-  | cons s a ih => simp only [List.cons_append, pdValues, ih]; omega
-
-theorem pdArgList_append (a b : List Argument) : pdArgList (a ++ b) = max (pdArgList a) (pdArgList b) := by
-  induction a with
-  | nil => simp [pdArgList]
-  | cons s a ih => simp only [List.cons_append, pdArgList, ih]; omega
-
-theorem pdDirList_append (a b : List Directive) : pdDirList (a ++ b) = max (pdDirList a) (pdDirList b) := by
-  induction a with
-  | nil => simp [pdDirList]
-  | cons s a ih => simp only [List.cons_append, pdDirList, ih]; omega
-
-theorem pdVarDefList_append (a b : List VarDef) : pdVarDefList (a ++ b) = max (pdVarDefList a) (pdVarDefList b) := by
-  induction a with
-  | nil => simp [pdVarDefList]
-  | cons s a ih => simp only [List.cons_append, pdVarDefList, ih]; omega
-
-theorem pdDefs_append (a b : List Definition) : pdDefs (a ++ b) = max (pdDefs a) (pdDefs b) := by
-  induction a with
-  | nil => simp [pdDefs]
-  | cons s a ih => simp only [List.cons_append, pdDefs, ih]; omega
-
 /-- **pd_breadth_free** — the production depth of every kind of sibling list is the maximum over its
     members: concatenating siblings (selections, list items, arguments, directives, variable definitions,
     definitions) never adds depth. -/
@@ -126,22 +96,6 @@ theorem pd_breadth_free :
     (∀ a b : List VarDef, pdVarDefList (a ++ b) = max (pdVarDefList a) (pdVarDefList b)) ∧
     (∀ a b : List Definition, pdDefs (a ++ b) = max (pdDefs a) (pdDefs b)) :=
   ⟨pdSels_append, pdValues_append, pdArgList_append, pdDirList_append, pdVarDefList_append, pdDefs_append⟩
-
-theorem pdSels_le {k : Nat} : ∀ (sels : List Selection), (∀ s ∈ sels, pdSelection s ≤ k) → pdSels sels ≤ k
-  | [], _ => by simp [pdSels_nil]
-  | s :: ss, h => by
-    rw [pdSels_cons]
-    have h1 := h s (by simp)
-    have h2 := pdSels_le ss (fun x hx => h x (by simp [hx]))
-    omega
-
-theorem pdDefs_le {k : Nat} : ∀ (ds : List Definition), (∀ d ∈ ds, pdDefinition d ≤ k) → pdDefs ds ≤ k
-  | [], _ => by simp [pdDefs]
-  | d :: ds, h => by
-    simp only [pdDefs]
-    have h1 := h d (by simp)
-    have h2 := pdDefs_le ds (fun x hx => h x (by simp [hx]))
-    omega
 
 /-- **flat_never_limited** — breadth is never limited by the depth limit. For every bound `k`: a
     document all of whose definitions have production depth ≤ `k` — however many definitions it has,
